@@ -15,10 +15,10 @@ RULE = (
     "unexpected and positional misuse (-> ValueError). oracle = the closed-form sum by parameter NAME "
     "(python loops). non-trivial = >= 2 parameters and >= 1 mapped name; distinct = (signature kinds, mapped names, output kind)."
 )
-ASSUMPTIONS = ["parameters with defaults are outside the statement ('kinds') and not generated"]
+ASSUMPTIONS = ["for parameters with defaults the statement is silent on omission: admitted outcomes are ValueError or the by-name binding with defaults; a mis-bound value is a violation"]
 BATCH = {"quick": 10, "thorough": 30}
-FLOORS = {"quick": {"productmap_calls": 800, "vmap1d_calls": 200, "spacemap_calls": 200, "wrapper_calls": 1500, "entries_compared": 50000},
-          "thorough": {"productmap_calls": 8000, "vmap1d_calls": 2000, "spacemap_calls": 2000, "wrapper_calls": 15000, "entries_compared": 500000}}
+FLOORS = {"quick": {"productmap_calls": 800, "vmap1d_calls": 200, "spacemap_calls": 200, "wrapper_calls": 1500, "entries_compared": 50000, "defaults_calls": 300},
+          "thorough": {"productmap_calls": 8000, "vmap1d_calls": 2000, "spacemap_calls": 2000, "wrapper_calls": 15000, "entries_compared": 500000, "defaults_calls": 3000}}
 PRIMES = [2, 3, 5, 7, 11]
 NAMES = ["a", "b", "c", "d", "e"]
 
@@ -265,6 +265,54 @@ def run_case(case):
         if FT.all_as_kwargs(tuple(sc[x] for x in names[:kpos]), kw2, arg_names=names) != sc:
             res["violations"].append({"key": "all_as_kwargs", "what": "all_as_kwargs does not bind values to the parameters of the same name"})
         add("wrapper_calls", 3)
+    # ---------------------------------------------------------------- parameters with defaults
+    # The statement does not say what the wrappers do when a parameter with a default is
+    # omitted, so two outcomes are admitted: ValueError (rejected as missing) or the value of
+    # the wrapped function with every GIVEN value bound to the parameter of the same name
+    # and the defaults for the rest.  Anything else - a number that arises from binding a
+    # value to another parameter - violates "bound to the parameter of the same name".
+    if n >= 2:
+        nd = int(rng.integers(1, n))  # the last nd parameters get defaults
+        dnames = names[n - nd:]
+        dflt = {x: float(10 + 3 * NAMES.index(x)) for x in dnames}
+        parts = [x for x in names[: n - nd]] + [f"{x}={dflt[x]}" for x in dnames]
+        if case["index"] % 2 and nd < n:
+            parts = names[: n - nd] + ["*"] + [f"{x}={dflt[x]}" for x in dnames]
+        srcd = f"def fd({', '.join(parts)}):\n    return {' + '.join(f'{coef[x]} * {x}' for x in names)}\n"
+        nsd = {}
+        exec(srcd, nsd)  # noqa: S102
+        fd = nsd["fd"]
+        for wname, wrap in (("allow_only_kwargs", FT.allow_only_kwargs), ("allow_args", FT.allow_args)):
+            try:
+                gd = wrap(fd)
+            except ValueError:
+                add("defaults_wrapper_rejected_function")
+                continue
+            except Exception as e:  # noqa: BLE001
+                res["violations"].append({"key": f"defaults_{wname}_creation|{type(e).__name__}", "what": pipeline.exc_text(e) + " :: " + srcd.splitlines()[0]})
+                continue
+            for _ in range(4):
+                omit = [x for x in dnames if rng.random() < 0.5]
+                given = [str(x) for x in rng.permutation([x for x in names if x not in omit])]
+                byname = float(sum(coef[x] * (sc[x] if x in given else dflt[x]) for x in names))
+                try:
+                    if wname == "allow_args" and "*" not in parts:
+                        pos = [x for x in names if x in given]
+                        kp = int(rng.integers(0, len(pos) + 1))
+                        # positional prefix must be a prefix of the signature to be meaningful
+                        kp = min(kp, next((i for i, x in enumerate(names) if x not in given), len(names)))
+                        got = gd(*[sc[x] for x in names[:kp]], **{x: sc[x] for x in given if x not in names[:kp]})
+                    else:
+                        got = gd(**{x: sc[x] for x in given})
+                    add("defaults_calls_accepted")
+                    if not abs(float(got) - byname) <= 1e-9 * (1 + abs(byname)):
+                        res["violations"].append({"key": f"defaults_{wname}_misbinds", "what": f"{wname}({srcd.splitlines()[0]}) called with {given} (omitted {omit}) returned {float(got)!r}; binding by name gives {byname!r}"})
+                except ValueError:
+                    add("defaults_calls_rejected")
+                except Exception as e:  # noqa: BLE001
+                    res["violations"].append({"key": f"defaults_{wname}_other_exception|{type(e).__name__}", "what": pipeline.exc_text(e) + f" :: {srcd.splitlines()[0]} given={given}"})
+                add("wrapper_calls")
+                add("defaults_calls")
     res["features"] = {"kinds_" + "-".join(sorted(set(kinds))): True, "out_" + out: True}
     res["sig"] = f"{kinds}{out}"
     res["nontrivial"] = n >= 2
